@@ -291,6 +291,7 @@ func checkCase(c Case) (Outcome, error) {
 	// file 0: a fixed starting point so that later files have pre-existing objects
 	m["base"] = &table{cols: []column{{name: "id"}, {name: "a"}, {name: "g", virtual: true}, {name: "b"}}, indexes: []string{"ix_base_0"}}
 	m["other"] = &table{cols: []column{{name: "id"}, {name: "a"}, {name: "b"}}}
+	m["events"] = &table{cols: []column{{name: "id"}, {name: "a"}, {name: "b"}}} // a name that starts with letters of the rebuild prefix new_
 	sb.WriteFile("m/100_init.sql", m.schemaSQL())
 	rehash := func() error {
 		if r := sb.Run("migrate", "hash", "--dir", "file://m"); r.Code != 0 {
